@@ -80,6 +80,7 @@ SYSTEMS = {
     "CH4,H2O": (["CH4", "H2O"], 0, "zero"),
     "CH4,H2O+far": (["CH4", "H2O"], 1, "far"),
     "H2O,CH4+mixed": (["H2O", "CH4"], 2, "mixed"),
+    "H2O,CH4": (["H2O", "CH4"], 0, "zero"),
 }
 
 
@@ -94,7 +95,7 @@ def start_molecule(name, start, seed):
 
 
 def traj_key(c):
-    return f"{c['system']}|s{c['start'][0]}a{c['start'][1]}|alpha{c['alpha']}|{c['method']}|{c['solver']}"
+    return f"{c['system']}|s{c['start'][0]}a{c['start'][1]}|alpha{c['alpha']}|{c['method']}|{c['solver']}" + (f"|after:{c['prior']}" if c.get("prior") else "")
 
 
 def case_key(c):
@@ -120,6 +121,14 @@ def run_sd(c):
     with B.uninitialised("zero"):
         molecule, _ = B.build(mols, params, pad, pat)
         opt = Geometry_Optimization_SD(params, alpha=c["alpha"], force_tol=c["tol"], max_evl=c["cap"])
+        if c.get("prior"):
+            # the SAME optimiser object served another batch of the same padded shape (other padding layout) before
+            pn, ppad, ppat = SYSTEMS[c["prior"]]
+            pm, _ = B.build([start_molecule(n, c["start"], c["seed"] + 1) for n in pn], params, ppad, ppat)
+            opt.max_evl = 3
+            with contextlib.redirect_stdout(io.StringIO()):
+                opt.run(pm)
+            opt.max_evl = c["cap"]
         orig = opt.onestep
 
         def onestep(molecule, *a, **kw):
@@ -379,6 +388,12 @@ def long_lattice(tier, seed):
             for a in ALPHAS:
                 for m, sv in configs:
                     out.append(_case("long", s, st, a, m, sv, TOL_LONG, cap, seed))
+    # histories: the optimiser object is reused for a batch of the same padded shape with another padding layout
+    for s_, prior in (("CH4,H2O", "H2O,CH4"), ("H2O,CH4", "CH4,H2O")):
+        for a in (5e-3, 2e-2) if tier == "quick" else ALPHAS:
+            for m, sv in configs[:1] if tier == "quick" else configs:
+                out.append(_case("long", s_, starts[0], a, m, sv, TOL_LONG, cap, seed))
+                out[-1]["prior"] = prior
     if tier != "quick":  # the documented cap of the design (200) on the two fastest-converging step factors
         for s in ("H2O", "CH4,H2O+far"):
             for a in (5e-3, 2e-2):
@@ -492,7 +507,7 @@ def run(chk, tier, seed):
         tb = _TRAJ.get(traj_key(c))
         singles = {}
         for nme in names:
-            cs = dict(c, system=nme)
+            cs = {k_: v_ for k_, v_ in dict(c, system=nme).items() if k_ != "prior"}  # alone, and with a new optimiser
             if traj_key(cs) in _TRAJ:
                 singles[nme] = _TRAJ[traj_key(cs)]
         if tb is None or not singles:
@@ -538,7 +553,7 @@ def replay(payload):
         names, _, _ = SYSTEMS[c["system"]]
         cb = dict(c, fam="long")
         tb = run_sd(cb)
-        singles = {n: run_sd(dict(cb, system=n)) for n in names}
+        singles = {n: run_sd({k_: v_ for k_, v_ in dict(cb, system=n).items() if k_ != "prior"}) for n in names}
         p, w = batch_vs_alone(cb, tb, singles)
         print("  worst deviation", w)
         for x in p:
